@@ -60,6 +60,16 @@ func (mb *mbox) getMessage(id string) (storage.Message, error) {
 	return nil, storage.ErrNotExist
 }
 
+// hasMessage reports whether the (loaded) index holds a message with the given ID.
+func (mb *mbox) hasMessage(id string) bool {
+	for _, m := range mb.messages {
+		if m.Fid == id {
+			return true
+		}
+	}
+	return false
+}
+
 // removeMessage deletes the message off disk and removes it from the index.
 func (mb *mbox) removeMessage(id string) error {
 	if !mb.indexLoaded {
